@@ -332,6 +332,19 @@ def leading_pass(b, infn):
 
 def empty_rule(c, facts, b, g, infn, lead):
     inp = b._input_name(infn)
+    from .. import innerval
+
+    EV, _why = innerval.cached(facts, b, Anchors(facts, b))
+    if EV is not None:
+        dom = False
+        if lead is not None:
+            n = unwrap(lead)
+            if n["t"] == "seq" and n["items"]:
+                first = unwrap(n["items"][0]["p"])
+                dom = first["t"] == "set" and first["min"] == 0 and first["max"] is None and first["cs"] == peg.named_set("multispace")
+        c.ob("C06.empty", infn.key, "blank* is skipped before the emptiness test", dom and EV["ok_order"], "the first parser applied to the input %s with multispace0; the emptiness test comes after it: %s — %s" % ("starts" if dom else "does NOT start", EV["ok_order"], innerval.how(EV)), witness="'   ' (blank-only input)" if not dom else None)
+        c.ob("C06.empty", infn.key, "empty input becomes exactly [-true]", EV["ok_empty"], innerval.how(EV) + (" — " + EV["detail"] if not EV["ok_empty"] else ""))
+        return
     s = inner_summary(b, infn)
     tests = [e for e in s.events if e["e"] == "isempty"]
     # the test may sit in the inner function or in a helper it was split into: the summary records the node
